@@ -252,6 +252,8 @@ impl Model {
     ) {
         let mut filtered: Vec<(usize, Ty)> = vec![];
         for (k, t) in list {
+            // MIRRORS FINDING 2 (findings/proposed_known_findings.json): a held key is skipped whatever version
+            // is held. If /repo starts comparing versions here, compare `index.get(k) == Some(t)` instead.
             if index.contains_key(k) || self.queue.contains_key(&(*k, *t, holder)) {
                 continue;
             }
@@ -277,6 +279,8 @@ impl Model {
             let f = self.infl.remove(&k).unwrap();
             tr.ended.push((f.wf, "held_in_index"));
         }
+        // MIRRORS FINDING 1: the fast path is decided on the FILTERED list. If /repo decides it on the advertised
+        // list, this becomes `list.len() == 1 && filtered.len() == 1`.
         if filtered.len() == 1 {
             let (k, t) = filtered[0];
             if self.infl.contains_key(&(k, t)) {
@@ -304,6 +308,7 @@ impl Model {
         let before = self.queue.len();
         self.queue.retain(|(k, t, _), _| !(*k == key && *t == ty));
         tr.queue_removed += before - self.queue.len();
+        // MIRRORS FINDING 3: in-flight entries of EVERY version of the key leave (the queue only loses `ty`).
         let gone: Vec<(usize, Ty)> = self.infl.keys().filter(|(k, _)| *k == key).cloned().collect();
         for k in gone {
             let f = self.infl.remove(&k).unwrap();
